@@ -23,6 +23,8 @@ type Ctx struct {
 	skel     *skeleton.Gen
 	vars     map[string]*variants.Variant
 	absCache map[string]*absVariant
+	normAst  *nctx            // normal-form enumerators per generator package (nform.go)
+	normPkg  map[string]*nctx // by package suffix
 	R        *ob.Report
 }
 
@@ -37,6 +39,7 @@ func (c *Ctx) Share(prev *Ctx) {
 		return
 	}
 	c.src, c.std, c.g, c.skel, c.vars, c.absCache = prev.src, prev.std, prev.g, prev.skel, prev.vars, prev.absCache
+	c.normAst, c.normPkg = prev.normAst, prev.normPkg
 }
 
 func (c *Ctx) Thorough() bool { return c.Tier == "thorough" }
